@@ -5,6 +5,7 @@ Rpki/Proofs/{PrefixLemmas,PrefixOrder,AsnSetLemmas}.lean.
 -/
 import Rpki.Proofs.PrefixOrder
 import Rpki.Proofs.AsnSetLemmas
+import Rpki.Proofs.PfxTextLemmas
 namespace Rpki.C13
 open Rpki.Prefix Rpki.AsnSet Rpki.Consts
 
@@ -339,14 +340,53 @@ theorem symDiff_is_symDiff (l r : List Nat) (hl : StrictSorted l) (hr : StrictSo
     StrictSorted (symDiff l r) ∧ ∀ x, x ∈ symDiff l r ↔ (x ∈ l ∧ x ∉ r) ∨ (x ∈ r ∧ x ∉ l) :=
   symDiff_spec l r hl hr
 
+/-! ## Text forms -/
+
+/-- **Prefix text.** Whatever one of the four constructors makes (strict or relaxed, either family,
+any address and any length it admits), `Display` writes a text that both `Prefix::from_str` and
+`Prefix::from_str_relaxed` read back as the same value — address text as the standard library
+writes and reads it (dotted quad; RFC 5952 with the IPv4-mapped form), `/`, decimal length. -/
+theorem prefix_text_roundtrip (a len : Nat) (hl : len < 256) (p : Pfx)
+    (h : (a < 2 ^ 32 ∧ (newV4 a len = .ok p ∨ newV4Relaxed a len = .ok p)) ∨
+         (a < 2 ^ 128 ∧ (newV6 a len = .ok p ∨ newV6Relaxed a len = .ok p))) :
+    PfxText.parsePfx false (PfxText.fmtPfx p) = .ok p ∧
+    PfxText.parsePfx true (PfxText.fmtPfx p) = .ok p := by
+  have hw : PfxText.PfxWF p := by
+    rcases h with ⟨ha, h | h⟩ | ⟨ha, h | h⟩
+    · exact PfxText.wf_of_newV4 a len p ha hl h
+    · exact PfxText.wf_of_newV4Relaxed a len p ha hl h
+    · exact PfxText.wf_of_newV6 a len p ha hl h
+    · exact PfxText.wf_of_newV6Relaxed a len p ha hl h
+  exact ⟨PfxText.parsePfx_fmt false p hw, PfxText.parsePfx_fmt true p hw⟩
+
+/-- Two constructed prefixes with the same text are the same prefix. -/
+theorem prefix_text_injective (p q : Pfx) (hp : PfxText.PfxWF p) (hq : PfxText.PfxWF q)
+    (h : PfxText.fmtPfx p = PfxText.fmtPfx q) : p = q := by
+  have h1 := PfxText.parsePfx_fmt false p hp
+  rw [h, PfxText.parsePfx_fmt false q hq] at h1
+  cases h1; rfl
+
+/-- **Max-length prefix text.** Every value `MaxLenPrefix::new` returns for a constructed prefix is
+written (`prefix` or `prefix-maxlen`) as a text `MaxLenPrefix::from_str` reads back as that value. -/
+theorem maxlen_text_roundtrip (m : Mlp) (hp : PfxText.PfxWF m.pfx) (hm : mlpNew m.pfx m.ml = .ok m) :
+    PfxText.parseMlp (PfxText.fmtMlp m) = .ok m := PfxText.parseMlp_fmt m hp hm
+
+/-- **AS number text.** `AS<decimal>` parses back to the number, for every 32-bit number. -/
+theorem asn_text_roundtrip (n : Nat) (h : n < 2 ^ 32) :
+    ResText.parseAsn (PfxText.fmtAsn n) = some n := ResText.parseAsn_fmt n h
+
 /-! ## Non-vacuity -/
 
 -- 10.0.0.0/8 and 10.1.0.0/16 are well-formed; the /8 covers the /16 and sorts after it.
 example : WF ⟨8, 10 * 2 ^ 120⟩ ∧ WF ⟨16, 10 * 2 ^ 120 + 2 ^ 112⟩ := by decide
 example : covers ⟨8, 10 * 2 ^ 120⟩ ⟨16, 10 * 2 ^ 120 + 2 ^ 112⟩ = true ∧
-    cmp ⟨16, 10 * 2 ^ 120 + 2 ^ 112⟩ ⟨8, 10 * 2 ^ 120⟩ = .lt := by decide
+    Prefix.cmp ⟨16, 10 * 2 ^ 120 + 2 ^ 112⟩ ⟨8, 10 * 2 ^ 120⟩ = .lt := by decide
 example : (newV4 (10 * 2 ^ 24) 8).toOption = some ⟨8, 10 * 2 ^ 120⟩ := by decide
 example : fromIter true [3, 1, 3, 2, 1] = [1, 2, 3] := by decide
 example : StrictSorted [1, 5] ∧ union [1, 5] [2, 5] = [1, 2, 5] := by simp [StrictSorted, union]
+
+-- "10.0.0.0/8" is what the formatter writes for 10.0.0.0/8, and the hypotheses of the text theorems hold for it
+example : PfxText.fmtPfx ⟨8, 10 * 2 ^ 120⟩ = [49, 48, 46, 48, 46, 48, 46, 48, 47, 56] := by decide
+example : newV4 (10 * 2 ^ 24) 8 = .ok ⟨8, 10 * 2 ^ 120⟩ ∧ mlpNew ⟨8, 10 * 2 ^ 120⟩ (some 24) = .ok ⟨⟨8, 10 * 2 ^ 120⟩, some 24⟩ := by decide
 
 end Rpki.C13
